@@ -78,6 +78,19 @@ Proof.
   - vm_compute. right. left. reflexivity.
 Qed.
 
+Lemma no_close_mid_request : forall c, v_parsing c = true -> may_close c = false.
+Proof. intros c H. unfold may_close. rewrite H. cbn. rewrite andb_false_r. reflexivity. Qed.
+
+Lemma close_when_done : forall c, v_responder_ended c = true -> v_persisted c = false ->
+  v_parsing c = false -> v_txes_empty c = true -> may_close c = true.
+Proof. intros c A B C D. unfold may_close. rewrite A, B, C, D. reflexivity. Qed.
+
+Lemma unfixed_closes_mid_request : exists c, v_parsing c = true /\ may_close_unfixed c = true.
+Proof.
+  exists {| v_responder_ended := true; v_persisted := false; v_parsing := true; v_txes_empty := true |}.
+  split; reflexivity.
+Qed.
+
 (* ---------------------------------------------------------------- Part 2 *)
 
 Section SessionProofs.
